@@ -35,7 +35,7 @@ deriving DecidableEq, Repr
 
 /-- THE switch: flip a field to `.fixed` when the corresponding fix patch is applied to the tree. -/
 def active : Variants :=
-  { discoveryReasons := .pinned, discoveryErrorFallback := .pinned, handlerStatus := .pinned, wiring := .pinned }
+  { discoveryReasons := .fixed, discoveryErrorFallback := .fixed, handlerStatus := .fixed, wiring := .fixed }
 
 def allFixed : Variants :=
   { discoveryReasons := .fixed, discoveryErrorFallback := .fixed, handlerStatus := .fixed, wiring := .fixed }
